@@ -192,7 +192,10 @@ def search(seed=0, budget=30000):
             return None, tried
         problems = check_one(specs, ex)
         if problems:
-            return {"targets(inputs,outputs)": specs, "working_dir": WD, "existing_files": ex,
+            plain = lambda v: v if isinstance(v, (str, int, float, type(None))) else (
+                {k: plain(x) for k, x in v.items()} if hasattr(v, "items") else [plain(x) for x in v])
+            return {"targets(inputs,outputs[,working_dir])": [plain(sp) for sp in specs],
+                    "containers": repr(specs)[:600], "working_dir": WD, "existing_files": ex,
                     "problems": problems}, tried
     return None, tried
 
